@@ -326,7 +326,12 @@ pub fn cleanup(tier: Tier, w: &Arc<World>) -> Scn {
             xc.resend_request = false;
             let step = 1 + d.range("swarm.c13.step", nblocks.min(30) + 1);
             match cause {
-                0 => xc.script.push((step, Adv::Silent)),
+                0 => {
+                    xc.script.push((step, Adv::Silent));
+                    if d.chance("swarm.c13.icmp", 1, 2) {
+                        w.lock().icmp = true;
+                    }
+                }
                 1 => xc.script.push((step, Adv::Error(d.range("swarm.c13.errcode", 8) as u16, true))),
                 _ => {
                     fc.disk_w = 150;
